@@ -496,3 +496,68 @@ fn extract_sections<'a>(
         }
     }
 }
+
+#[cfg(bpaf_verif)]
+thread_local! {
+    static VERIF_LAST_DOC: std::cell::RefCell<Option<Doc>> = std::cell::RefCell::new(None);
+}
+
+/// verification hook: the document most recently handed to one of the documentation renderers
+#[cfg(bpaf_verif)]
+#[doc(hidden)]
+pub fn verif_take_doc() -> Option<Doc> {
+    VERIF_LAST_DOC.with(|d| d.borrow_mut().take())
+}
+
+#[cfg(bpaf_verif)]
+impl Doc {
+    pub(crate) fn verif_capture(&self) {
+        VERIF_LAST_DOC.with(|d| *d.borrow_mut() = Some(self.clone()));
+    }
+
+    /// verification hook: build a document from an explicit token list,
+    /// (0, style, text) | (1, block, _) = block start | (2, block, _) = block end
+    #[doc(hidden)]
+    #[must_use]
+    pub fn verif_from_tokens(tokens: &[(u8, u8, String)]) -> Doc {
+        fn style(c: u8) -> Style {
+            match c {
+                1 => Style::Emphasis,
+                2 => Style::Literal,
+                3 => Style::Metavar,
+                4 => Style::Invalid,
+                _ => Style::Text,
+            }
+        }
+        fn block(c: u8) -> Block {
+            match c {
+                0 => Block::Header,
+                1 => Block::Section2,
+                2 => Block::Section3,
+                3 => Block::ItemTerm,
+                4 => Block::ItemBody,
+                5 => Block::DefinitionList,
+                6 => Block::Block,
+                7 => Block::InlineBlock,
+                8 => Block::TermRef,
+                9 => Block::Meta,
+                _ => Block::Mono,
+            }
+        }
+        let mut doc = Doc::default();
+        for (kind, code, text) in tokens {
+            match kind {
+                0 => {
+                    doc.payload.push_str(text);
+                    doc.tokens.push(Token::Text {
+                        bytes: text.len(),
+                        style: style(*code),
+                    });
+                }
+                1 => doc.tokens.push(Token::BlockStart(block(*code))),
+                _ => doc.tokens.push(Token::BlockEnd(block(*code))),
+            }
+        }
+        doc
+    }
+}
